@@ -10,6 +10,11 @@ Correspondence:
       a share of the cases has its classification tables tampered with by SQL
       (foreign keys are not enforced in these commands) to exercise the joins and
       the refusals;
+ (CL-views) on every dataset of (CL), after `rise` and `recession`: the views average_rising_depth,
+      average_recession_time (rows in the order SQLite returns them) and rising_curve_line_segment against
+      Model/Views.v evaluated inside Coq on the dumped tables, and the conclusion of
+      C13_view_shows_every_stored_level (the view lists every level crossed by an aligned interval)
+      evaluated on the real view (curves_common.check_views_coq);
  (FL) zeta_grid.populate_zeta_grid on an in-memory database against
       Model/ZetaGrid.v (bounds on a level, one ulp beside it, steps .1 .3 ...).
 Oracle: every stored row recomputed from the interval's own data with
@@ -27,13 +32,14 @@ import sqlite3
 from fractions import Fraction as F
 
 from harness import common as C
+from harness import curves_common as K
 from harness import dataset as D
 from harness import gen_classify as GC
 from harness import gen_regrid as G
 from harness.props import c12
 
 PROP = 'C13'
-MODELS = ['Model/Curves.vo', 'Model/ZetaGrid.vo', 'Model/RegridFloat.vo']
+MODELS = ['Model/Curves.vo', 'Model/ZetaGrid.vo', 'Model/RegridFloat.vo', 'Model/Views.vo', 'Model/ViewsCase.vo']
 PRE = 'From Spowtd Require Import Model.Curves.\nOpen Scope Q_scope.\n'
 
 
@@ -323,8 +329,9 @@ def cl_case(rec, d, tamper=None, hist=None):
     rise = run_command(db, 'rise')
     rece = run_command(db, 'recession')
     t_after = read_inputs(db)
+    views = K.dump_views(db)        # the state the two commands leave: tables and what the views show of them
     history = history_stage(db, hist) if hist is not None else None
-    return dict(stage='done', t=t, rise=rise, rece=rece, inputs_unchanged=(t == t_after), history=history)
+    return dict(stage='done', t=t, rise=rise, rece=rece, inputs_unchanged=(t == t_after), history=history, views=views)
 
 
 def oracle_state(state):
@@ -372,6 +379,7 @@ def check_history(r, rec, hist, case, out):
 
 def check_cl(cases, out, label):
     rise_strs, rece_strs, grid_strs, rise_meta, rece_meta, grid_meta = [], [], [], [], [], []
+    view_items = []
     for n, (rec, tamper, hist) in enumerate(cases):
         d = D.scratch(PROP, 'cl_db')
         r = cl_case(rec, d, tamper, hist)
@@ -388,6 +396,7 @@ def check_cl(cases, out, label):
                               % (r['stage'], type(r['exc']).__name__, r['exc'], rec['cls']), case=case)
             continue
         t = r['t']
+        view_items.append((r['views'], case))
         if t['rain']:
             dt = t['rain'][0][1] - t['rain'][0][0]
             out.count('time-step:%s' % ('whole hours' if dt % 3600 == 0 else 'whole minutes' if dt % 60 == 0
@@ -457,6 +466,11 @@ def check_cl(cases, out, label):
             case, res = meta[i]
             out.violation('corr', 'model %s_rows <> tables written by `spowtd %s` (class %s, tamper %s): impl %s'
                           % (kind, kind, case['rec']['cls'], case['tamper'], str(res)[:300]), case=case)
+    # the views through which the curves are read, against Model/Views.v evaluated inside Coq (every dataset)
+    _secs = K.check_views_coq(PROP, label + '_views', view_items, out,
+                      what=lambda c: ' (class %s, tamper %s)' % (c['rec']['cls'], c['tamper']))
+    if os.environ.get('VERIF_TIMING'):
+        print('views-coq: %.1f s in Coq' % _secs)
     bad, errs, _ = C.run_case_shards(PROP, label + '_grid', PRE, 'list float * float * res (list Z)',
                                      'check_grid', grid_strs, shard=60)
     out.corr_errors += errs
@@ -590,7 +604,10 @@ def run(ctx, out):
         '1e-12 relative',
         'crossing positions: tolerance of C12 (root finder = oracle)',
         'SQLite storage, PRIMARY KEY / UNIQUE constraints and the transaction of each command are exercised, not '
-        'modelled']
+        'modelled',
+        'the master-curve views: SQLite evaluates joins, AVG and SUM in binary64 and emits GROUP BY groups in ascending '
+        'key order; Model/Views.v computes exactly and the comparison allows 1e-9 of the terms\' magnitude (order and '
+        'level sets exactly)']
 
 
 def replay(case, out):
